@@ -52,8 +52,9 @@ Proof.
   destruct (Nat.lt_ge_cases n 4) as [H|H].
   - apply short_file_rejected_proof. now rewrite repeat_length.
   - unfold verify_ok. rewrite repeat_length.
-    replace n with ((n - 4) + 4)%nat at 2 3 by lia.
-    rewrite repeat_app, firstn_app, skipn_app, repeat_length.
+    assert (E : repeat 0 n = repeat 0 (n - 4) ++ repeat 0 4)
+      by (rewrite <- repeat_app; f_equal; lia).
+    rewrite E, firstn_app, skipn_app, repeat_length.
     replace (n - 4 - (n - 4))%nat with 0%nat by lia.
     rewrite firstn_all2 by (rewrite repeat_length; lia).
     rewrite skipn_all2 by (rewrite repeat_length; lia).
@@ -144,7 +145,7 @@ Section ProtoProofs.
   Lemma candidates_saved c sv k :
     candidates c (saved_marks sv k) =
     match sv with Some s => if Nat.leb 1 k then c ++ [s] else c | None => c end.
-  Proof. destruct sv; simpl; [destruct (Nat.leb 1 k)|]; reflexivity. Qed.
+  Proof. destruct sv; simpl; [destruct k|]; reflexivity. Qed.
 
   (* ---- crash *)
   Lemma FInv_recover f c adv :
@@ -159,6 +160,10 @@ Section ProtoProofs.
   Qed.
 
   (* ---- start *)
+  Ltac fin := cbn; repeat split; auto; try discriminate;
+              try (eexists; split; [left; reflexivity|eassumption || reflexivity]);
+              try (left; reflexivity).
+
   Lemma start_spec f c :
     FInv f c -> at_lock f = None ->
     exists s, fst (start f) = SLoaded s /\ In s c /\
@@ -170,16 +175,13 @@ Section ProtoProofs.
     destruct nw as [y|]; cbn.
     - destruct (verify (f_data y)) eqn:Ev; cbn.
       + destruct Hn as [(s & Hs & Hd)|Hn]; [|congruence].
-        rewrite Hd, Hls. cbn. exists s. repeat split; auto; try discriminate.
-        exists s. split; [left; reflexivity|exact Hd].
+        rewrite Hd, Hls. exists s. fin.
       + destruct pk as [x|]; cbn.
-        * destruct Hp as [Hsy (s & Hs & Hd)]. rewrite Hd, Hls. cbn.
-          exists s. repeat split; auto; try discriminate. exists s. split; [left; reflexivity|exact Hd].
-        * exists s0. repeat split; auto; try discriminate. left; reflexivity.
+        * destruct Hp as [Hsy (s & Hs & Hd)]. rewrite Hd, Hls. exists s. fin.
+        * exists s0. fin.
     - destruct pk as [x|]; cbn.
-      + destruct Hp as [Hsy (s & Hs & Hd)]. rewrite Hd, Hls. cbn.
-        exists s. repeat split; auto; try discriminate. exists s. split; [left; reflexivity|exact Hd].
-      + exists s0. repeat split; auto; try discriminate. left; reflexivity.
+      + destruct Hp as [Hsy (s & Hs & Hd)]. rewrite Hd, Hls. exists s. fin.
+      + exists s0. fin.
   Qed.
 
   Lemma start_prefix f c k :
@@ -190,17 +192,29 @@ Section ProtoProofs.
     destruct nw as [y|]; cbn.
     - destruct (verify (f_data y)) eqn:Ev; cbn.
       + destruct Hn as [Hh|Hn]; [|congruence].
-        assert (Hh' := Hh). destruct Hh' as (s & Hs & Hd). rewrite Hd, Hls. cbn. rewrite <- Hd.
+        assert (El : exists s, load (f_data y) = Some s)
+          by (destruct Hh as (s & Hs & Hd); exists s; rewrite Hd; apply Hls).
+        destruct El as [s El]. rewrite El. cbn.
         destruct k as [|[|[|[|k]]]]; cbn; auto.
-      + destruct pk as [x|]; cbn.
-        * destruct Hp as [Hsy (s & Hs & Hd)]. rewrite Hd, Hls. cbn. rewrite <- Hd.
-          destruct k as [|[|[|[|k]]]]; cbn; rewrite ?Ev; eauto 8.
-          all: split; [split; [assumption|exists s; auto]|auto].
-        * destruct k as [|[|[|[|k]]]]; cbn; rewrite ?Ev; auto.
-    - destruct pk as [x|]; cbn.
-      + destruct Hp as [Hsy (s & Hs & Hd)]. rewrite Hd, Hls. cbn. rewrite <- Hd.
-        destruct k as [|[|k]]; cbn; (split; [split; [assumption|exists s; auto]|auto]).
-      + destruct k as [|[|k]]; cbn; auto.
+      + assert (El : snd (match pk with
+                     | Some x => match load (f_data x) with
+                                 | Some s => (SLoaded s, [OCreateExcl NLock cempty; OFsync NNew; OUnlink NNew])
+                                 | None => (SLoadError, [OCreateExcl NLock cempty; OFsync NNew; OUnlink NNew; OUnlink NLock])
+                                 end
+                     | None => (SLoaded s0, [OCreateExcl NLock cempty; OFsync NNew; OUnlink NNew])
+                     end) = [OCreateExcl NLock cempty; OFsync NNew; OUnlink NNew]).
+        { destruct pk as [x|]; [|reflexivity]. destruct Hp as [_ (s & Hs & Hd)]. rewrite Hd, Hls. reflexivity. }
+        rewrite El.
+        destruct k as [|[|[|[|k]]]]; cbn; rewrite ?Ev; auto.
+    - assert (El : snd (match pk with
+                     | Some x => match load (f_data x) with
+                                 | Some s => (SLoaded s, [OCreateExcl NLock cempty])
+                                 | None => (SLoadError, [OCreateExcl NLock cempty; OUnlink NLock])
+                                 end
+                     | None => (SLoaded s0, [OCreateExcl NLock cempty])
+                     end) = [OCreateExcl NLock cempty]).
+      { destruct pk as [x|]; [|reflexivity]. destruct Hp as [_ (s & Hs & Hd)]. rewrite Hd, Hls. reflexivity. }
+      rewrite El. destruct k as [|[|k]]; cbn; auto.
   Qed.
 
   Lemma start_locked f : at_lock f <> None -> start f = (SRefused, []).
@@ -211,11 +225,11 @@ Section ProtoProofs.
     FInv f c ->
     FInv (apply_ops f (firstn k (save_ops s))) (if Nat.leb 1 k then c ++ [s] else c).
   Proof.
-    intros Hf. destruct f as [pk nw dt lk].
+    intros Hf. destruct f as [pk nw dt lk]. unfold Model.save_ops.
     destruct k as [|[|k]]; cbn [Nat.leb firstn].
     - exact Hf.
     - apply FInv_mono with c; [apply incl_appl, incl_refl|]. exact Hf.
-    - replace (firstn k []) with (@nil (fsop C)) by (destruct k; reflexivity).
+    - rewrite firstn_nil.
       apply FInv_mono with (c := c) (c' := c ++ [s]) in Hf; [|apply incl_appl, incl_refl].
       destruct Hf as [Hp Hn]. split; cbn in *; [exact Hp|].
       left. exists s. split; [apply in_or_app; right; left; reflexivity|reflexivity].
@@ -235,9 +249,9 @@ Section ProtoProofs.
     intros [Hp Hn] Hh. destruct f as [pk nw dt lk]. unfold Model.finalize_ops, Model.commit_ops, FInv in *. cbn in *.
     destruct nw as [y|]; cbn.
     - destruct k as [|[|[|k]]]; cbn; auto.
-      replace (firstn k []) with (@nil (fsop C)) by (destruct k; reflexivity). cbn. auto.
+      rewrite firstn_nil. cbn. auto.
     - destruct k as [|k]; cbn; auto.
-      replace (firstn k []) with (@nil (fsop C)) by (destruct k; reflexivity). cbn. auto.
+      rewrite firstn_nil. cbn. auto.
   Qed.
 
   Lemma finalize_full f c m :
@@ -314,10 +328,8 @@ Section ProtoProofs.
         * destruct Hsv as [-> Hdf].
           pose proof (save_prefix f c (p_mem p') 2 HF) as HF'. cbn [Nat.leb firstn] in HF'.
           split; [exact HF'|]. unfold PInv; cbn [w_fs w_proc].
-          destruct (save_full f (p_mem p')) as (El & Ep & y & En & Ey).
-          rewrite El, En. repeat split; auto.
-          -- intros _. unfold mem_on_disk. rewrite En. exact Ey.
-          -- exists (p_mem p'). split; [apply in_or_app; right; left; reflexivity|exact Ey].
+          cbn. repeat split; auto.
+          exists (p_mem p'). split; [apply in_or_app; right; left; reflexivity|reflexivity].
         * split; [exact HF|]. unfold PInv; cbn. repeat split; auto.
           intros Hd'. destruct (Hsv Hd') as [Hd0 Hm]. rewrite Hm. auto.
       + split; [exact HF|]. unfold PInv; cbn. exact HP.
@@ -378,6 +390,22 @@ Section ProtoProofs.
     unfold PInv in HP. rewrite Hp in HP.
     destruct (start_spec _ _ HF HP) as (s & Hr & Hs & _). eauto.
   Qed.
+
+  Lemma run_snoc_crash_dead : forall evs w cm k adv,
+    w_proc (fst (run w (evs ++ [ECrashDuring cm k adv]))) = None.
+  Proof.
+    induction evs as [|e evs IH]; intros w cm k adv; cbn [app run Model.run].
+    - cbn. reflexivity.
+    - destruct (step w e) as [w1 m1]. specialize (IH w1 cm k adv).
+      destruct (run w1 (evs ++ [ECrashDuring cm k adv])) as [w2 m2]. exact IH.
+  Qed.
+
+  (* ... in particular after a crash at any operation boundary of any command *)
+  Theorem recover_after_crash_generic evs cm k adv :
+    detectable_run (w0 S C) (evs ++ [ECrashDuring cm k adv]) ->
+    exists s, fst (start (w_fs (fst (run (w0 S C) (evs ++ [ECrashDuring cm k adv]))))) = SLoaded s /\
+              In s (candidates [s0] (snd (run (w0 S C) (evs ++ [ECrashDuring cm k adv])))).
+  Proof. intros Hd. apply recover_generic; [exact Hd|apply run_snoc_crash_dead]. Qed.
 
   (* P1: the committed file is durable at every instant *)
   Theorem pickle_durable_generic evs cm k x :
@@ -449,6 +477,31 @@ Section ProtoProofs.
     destruct (at_pickle _); [|exact HM']. destruct HP' as [Hsy _]. auto.
   Qed.
 
+  (* P1: nothing is lost needlessly.  If the uncommitted file survives the
+     crash intact (SIGKILL, or a power loss after the data reached the disk)
+     the next start loads exactly the memory of the killed instance *)
+  Theorem intact_recovers_memory_generic evs p adv :
+    detectable_run (w0 S C) evs ->
+    w_proc (fst (run (w0 S C) evs)) = Some p ->
+    p_async p = 0%nat ->
+    (forall y, at_new (w_fs (fst (run (w0 S C) evs))) = Some y -> adv NNew = f_data y) ->
+    fst (start (recover adv (w_fs (fst (run (w0 S C) evs))))) = SLoaded (p_mem p).
+  Proof.
+    intros Hd Hp Ha Hadv. destruct (reachable_inv evs Hd) as [HF HP].
+    destruct (fst (run (w0 S C) evs)) as [f pr]. cbn in Hp. subst pr.
+    unfold PInv in HP. cbn in HP. destruct HP as (_ & HA & HB & _).
+    specialize (HB (HA Ha)). destruct HF as [HPk _]. cbn [w_fs] in *.
+    destruct f as [pk nw dt lk]. unfold mem_on_disk in HB. cbn in *.
+    unfold start, recover, crash, Model.commit_ops. cbn.
+    destruct nw as [y|]; cbn.
+    - destruct (f_synced y) eqn:Esy; cbn.
+      + rewrite HB, Hvs. cbn. rewrite ?HB, Hls. reflexivity.
+      + rewrite (Hadv y eq_refl), HB, Hvs. cbn. rewrite ?(Hadv y eq_refl), ?HB, Hls. reflexivity.
+    - destruct pk as [x|]; cbn.
+      + destruct HPk as [Hsy _]. rewrite Hsy. cbn. rewrite HB, Hls. reflexivity.
+      + rewrite HB. reflexivity.
+  Qed.
+
   (* while asynchronous nothing is written *)
   Theorem async_defers_generic p pc p' r sv :
     proc_step p pc = (p', r, sv) -> (0 < p_async p')%nat -> sv = None.
@@ -487,3 +540,70 @@ Proof.
          | context [match ?x with _ => _ end] => destruct x
          end; inversion H; reflexivity.
 Qed.
+
+Section BobProofs.
+  Variables (enc : state -> bytes) (dec : bytes -> option state) (norm : key -> key).
+  Hypothesis dec_enc : forall s, dec (seal (enc s)) = Some s.
+
+  Let Hvs : forall s, verify_ok (b_seal enc s) = true := fun s => verify_seal_proof (enc s).
+
+  Lemma recover_is_saved_snapshot_proof (evs : list bevent) :
+    b_detectable_run enc dec norm b_w0 evs ->
+    w_proc (fst (b_run enc dec norm b_w0 evs)) = None ->
+    exists s, fst (b_start dec (w_fs (fst (b_run enc dec norm b_w0 evs)))) = SLoaded s /\
+              In s (b_candidates [init_state] (snd (b_run enc dec norm b_w0 evs))).
+  Proof. exact (recover_generic _ _ _ _ _ _ _ _ _ _ dec_enc (mutate_nosave_same norm) evs). Qed.
+
+  Lemma recover_after_crash_proof (evs : list bevent) cm k adv :
+    b_detectable_run enc dec norm b_w0 (evs ++ [ECrashDuring cm k adv]) ->
+    exists s, fst (b_start dec (w_fs (fst (b_run enc dec norm b_w0 (evs ++ [ECrashDuring cm k adv]))))) = SLoaded s /\
+              In s (b_candidates [init_state] (snd (b_run enc dec norm b_w0 (evs ++ [ECrashDuring cm k adv])))).
+  Proof. exact (recover_after_crash_generic _ _ _ _ _ _ _ _ _ _ dec_enc (mutate_nosave_same norm) evs cm k adv). Qed.
+
+  Lemma committed_file_durable_proof (evs : list bevent) cm k x :
+    b_detectable_run enc dec norm b_w0 evs ->
+    at_pickle (b_fs_at_crash enc dec norm (fst (b_run enc dec norm b_w0 evs)) cm k) = Some x ->
+    f_synced x = true.
+  Proof. exact (pickle_durable_generic _ _ _ _ _ _ _ _ _ _ dec_enc (mutate_nosave_same norm) evs cm k x). Qed.
+
+  Lemma single_writer_proof (evs : list bevent) p :
+    b_detectable_run enc dec norm b_w0 evs ->
+    w_proc (fst (b_run enc dec norm b_w0 evs)) = Some p ->
+    b_start dec (w_fs (fst (b_run enc dec norm b_w0 evs))) = (SRefused, []).
+  Proof. exact (single_writer_generic _ _ _ _ _ _ _ _ _ _ dec_enc (mutate_nosave_same norm) evs p). Qed.
+
+  Lemma sync_state_on_disk_proof (evs : list bevent) p :
+    b_detectable_run enc dec norm b_w0 evs ->
+    w_proc (fst (b_run enc dec norm b_w0 evs)) = Some p ->
+    p_async p = 0%nat ->
+    p_dirty p = false /\
+    match disk_latest bytes (w_fs (fst (b_run enc dec norm b_w0 evs))) with
+    | Some c => c = seal (enc (p_mem p))
+    | None => p_mem p = init_state
+    end.
+  Proof. exact (sync_on_disk_generic _ _ _ _ _ _ _ _ _ _ dec_enc (mutate_nosave_same norm) evs p). Qed.
+
+  Lemma finalize_commits_proof (evs : list bevent) p :
+    b_detectable_run enc dec norm b_w0 evs ->
+    w_proc (fst (b_run enc dec norm b_w0 evs)) = Some p ->
+    p_async p = 0%nat ->
+    let w' := fst (b_step enc dec norm (fst (b_run enc dec norm b_w0 evs)) (ECmd CFinalize)) in
+    w_proc w' = None /\ at_lock (w_fs w') = None /\ at_new (w_fs w') = None /\
+    match at_pickle (w_fs w') with
+    | Some x => f_synced x = true /\ f_data x = seal (enc (p_mem p))
+    | None => p_mem p = init_state
+    end.
+  Proof. exact (finalize_commits_generic _ _ _ _ _ _ _ _ _ _ dec_enc (mutate_nosave_same norm) evs p). Qed.
+
+  Lemma intact_recovers_memory_proof (evs : list bevent) p adv :
+    b_detectable_run enc dec norm b_w0 evs ->
+    w_proc (fst (b_run enc dec norm b_w0 evs)) = Some p ->
+    p_async p = 0%nat ->
+    (forall y, at_new (w_fs (fst (b_run enc dec norm b_w0 evs))) = Some y -> adv NNew = f_data y) ->
+    fst (b_start dec (recover adv (w_fs (fst (b_run enc dec norm b_w0 evs))))) = SLoaded (p_mem p).
+  Proof. exact (intact_recovers_memory_generic _ _ _ _ _ _ _ _ _ _ Hvs dec_enc (mutate_nosave_same norm) evs p adv). Qed.
+End BobProofs.
+
+Lemma async_defers_proof norm (p : proc state) pc p' r sv :
+  proc_step state api ret (mutate norm) p pc = (p', r, sv) -> (0 < p_async p')%nat -> sv = None.
+Proof. apply async_defers_generic. Qed.
